@@ -114,7 +114,7 @@ std::string int32negToString( int32_t value)
 {
 
    // convert into a positive value
-   const uint32_t  abs_value = -value;
+   const uint32_t  abs_value = 0 - static_cast< uint32_t>( value);
 
    // actually we create a string with result_len + 1
    // but then we would have to sub 1 again two times (so 1 add, 2 subs), so
@@ -173,7 +173,7 @@ int int32negToString( char* buffer, int32_t value)
 {
 
    // convert into a positive value
-   const uint32_t  abs_value = -value;
+   const uint32_t  abs_value = 0 - static_cast< uint32_t>( value);
 
    // actually we create a string with result_len + 1
    // but then we would have to sub 1 again two times (so 1 add, 2 subs), so
